@@ -88,7 +88,7 @@ func run(c *fw.Ctx) {
 	reps := c.Pick(2, 12)
 	var cfgs []schedCfg
 	for rep := 0; rep < reps; rep++ {
-		for _, server := range []string{"webdav", "caldav", "carddav"} {
+		for _, server := range []string{"webdav", "caldav", "carddav", "raw-caldav", "raw-carddav"} {
 			for _, n := range []int{2, 4, 16, 64} {
 				for _, p := range []int{1, 2, 4, 16} {
 					if !c.Thorough() && (n == 64 && p != 4) {
@@ -120,11 +120,19 @@ func run(c *fw.Ctx) {
 			runCalSchedule(c, cfg, i)
 		case "carddav":
 			runCardSchedule(c, cfg, i)
+		case "raw-caldav", "raw-carddav":
+			runRawSchedule(c, cfg, i)
 		}
 	}
 	// upload fault matrix (exhaustive)
 	for i, cs := range uploadMatrix(c.Thorough()) {
 		if !c.Mine(i) {
+			continue
+		}
+		if deadlocksSeen >= 4 {
+			// every deadlock costs ~15 s (5 s of stable observations, 10 s
+			// waiting for the abandoned caller); the verdict is in
+			c.Observe("fault_matrix", "cells-skipped-after-4-deadlocks-in-this-worker", 1)
 			continue
 		}
 		execUpload(c, cs)
